@@ -122,6 +122,26 @@ def export(spec, raise_reserved=True, ctx=None):
         collection_to_gff3(as_container([coll], spec.get("container", "list")), buf, add_sequences=spec["fasta"], chromosome_relative_coordinates=not spec["chunk_mode"],
                            raise_on_reserved_attributes=raise_reserved)
         if ctx is not None:
+            if spec.get("scribble_rows"):
+                # a caller derives another track from the rows it iterates (other seqid / source, shifted coordinates) by editing
+                # them in place: the rows it was handed are its own, the collection's next export is not affected
+                try:
+                    for row in coll.to_gff(chromosome_relative_coordinates=not spec["chunk_mode"], raise_on_reserved_attributes=raise_reserved):
+                        for attr, val in (("sequence_name", "derived"), ("seqid", "derived"), ("source", "caller")):
+                            if hasattr(row, attr):
+                                try:
+                                    setattr(row, attr, val)
+                                except Exception:
+                                    pass
+                        for attr in ("start", "end"):
+                            if isinstance(getattr(row, attr, None), int):
+                                try:
+                                    setattr(row, attr, getattr(row, attr) + 1000)
+                                except Exception:
+                                    pass
+                    ctx.label("caller_edited_iterated_rows")
+                except Exception:
+                    pass
             # writing the same collection object a second time gives the same file
             buf2 = io.StringIO()
             collection_to_gff3(as_container([coll], spec.get("container", "list")), buf2, add_sequences=spec["fasta"], chromosome_relative_coordinates=not spec["chunk_mode"],
@@ -660,7 +680,7 @@ def strat_syntax(draw, tier="quick"):
             f["qualifiers"] = draw(qs)
     n = hi + draw(st.integers(1, 6))
     sp = {"obj": o, "genome": draw(S.dna(n, n)), "fasta": draw(st.booleans()), "raise_reserved": draw(st.booleans()),
-          "container": draw(st.sampled_from(["list", "list", "tuple", "generator", "iterator"]))}
+          "container": draw(st.sampled_from(["list", "list", "tuple", "generator", "iterator"])), "scribble_rows": draw(st.integers(0, 2)) == 0}
     lo = min([t["exons"][0][0] for g in o["genes"] for t in g["transcripts"]] + [f["blocks"][0][0] for c in o["feature_collections"] for f in c["features"]])
     r = draw(st.integers(0, 5))
     if r == 0:
